@@ -84,7 +84,7 @@ pub struct C17;
 
 const KEYS: &[char] = &['j', 'k', 'g', 'a', 'c', 'v', '.', 'f', 'l', '-', '/', '/', 'x', 'J', 'Q', '(', '*', '1', ' ', 'q'];
 
-fn gen_ev(rng: &mut Rng, nav_bias: bool) -> Ev {
+pub fn gen_ev(rng: &mut Rng, nav_bias: bool) -> Ev {
     if nav_bias && rng.chance(0.6) {
         return match rng.below(8) {
             0 | 1 => Ev::Ch('j'),
@@ -764,6 +764,42 @@ pub fn spawn_tui(
     tui_task
 }
 
+/// The expiry sweep of main.rs:368-403 (a closure inlined in main(), re-stated;
+/// the 60 s period is a knob, the clock is the simulated one).
+pub fn spawn_sweep(sim: &mut Sim, app: &Arc<Mutex<Jet1090>>, period_s: u32, minutes: u64, horizon_ns: u64, shared: &Rc<RefCell<Shared>>) {
+    let app_exp = app.clone();
+    let period = period_s as u64 * 1_000_000_000;
+    let sh = shared.clone();
+    let horizon = horizon_ns;
+    sim.spawn("expiry-sweep(stub)", async move {
+        loop {
+            exec::sleep_ns(period).await;
+            if exec::now_ns() > horizon {
+                break;
+            }
+            let mut app = app_exp.lock().await;
+            let now = rs1090::decode::time::now_in_s();
+            let remove_keys: Vec<String> = app
+                .state_vectors
+                .iter()
+                .filter(|(_k, v)| now > v.cur.lastseen + minutes * 60)
+                .map(|(k, _)| k.to_string())
+                .collect();
+            for k in remove_keys {
+                app.state_vectors.remove(&k);
+                sh.borrow_mut().perturbed = true;
+                sh.borrow_mut().count("expired_by_sweep");
+            }
+            let _ = app
+                .state_vectors
+                .iter_mut()
+                .map(|(_key, value)| value.hist.retain(|elt| now < (elt.timestamp as u64) + minutes * 60))
+                .collect::<Vec<()>>();
+            sh.borrow_mut().count("expiry_sweep");
+        }
+    });
+}
+
 pub fn execute(plan: &C17Plan) -> Outcome<C17Plan> {
     let mut out = Outcome::new();
     out.evaluations = 1;
@@ -813,32 +849,8 @@ pub fn execute(plan: &C17Plan) -> Outcome<C17Plan> {
     }
     // ---- expiry sweep (re-stated from main.rs:368-403, simulated clock) -----
     if plan.sweep_period_s > 0 {
-        let app_exp = app.clone();
-        let period = plan.sweep_period_s as u64 * 1_000_000_000;
-        let minutes = plan.expire_min;
-        let sh = shared.clone();
         let horizon = plan.events.iter().map(|e| e.at_ns).max().unwrap_or(0) + 2_000_000_000;
-        sim.spawn("expiry-sweep(stub)", async move {
-            loop {
-                exec::sleep_ns(period).await;
-                if exec::now_ns() > horizon {
-                    break;
-                }
-                let mut app = app_exp.lock().await;
-                let now = rs1090::decode::time::now_in_s();
-                let remove_keys: Vec<String> = app
-                    .state_vectors
-                    .iter()
-                    .filter(|(_k, v)| now > v.cur.lastseen + minutes * 60)
-                    .map(|(k, _)| k.to_string())
-                    .collect();
-                for k in remove_keys {
-                    app.state_vectors.remove(&k);
-                    sh.borrow_mut().perturbed = true;
-                }
-                sh.borrow_mut().count("expiry_sweep");
-            }
-        });
+        spawn_sweep(&mut sim, &app, plan.sweep_period_s, plan.expire_min, horizon, &shared);
     }
     // ---- lock-holder ---------------------------------------------------------
     if !plan.holds.is_empty() {
